@@ -95,6 +95,20 @@ Theorem C10_entry_of_another_key_is_refused : forall key key' rest buf n,
 Proof. exact other_key_is_refused. Qed.
 Print Assumptions C10_entry_of_another_key_is_refused.
 
+(* header refresh after a 304 (Rock::HeaderUpdater, MemStore::updateHeaders): the fresh prefix and the rest of the slot
+   at the splicing point go into a fresh chain that is linked in front of the remaining old slots, which leaves a
+   PARTLY FILLED SLOT IN THE MIDDLE of the chain.  Whatever the slot capacity and the old slot boundaries are, the new
+   chain spells the fresh prefix followed by exactly the old body; C10_chain_read_returns_the_requested_bytes (which
+   assumes nothing about slot sizes) then gives the bytes of a hit read through it.
+   partial: the update is a function on chains and a step of the sequential driver (update_entry), it is NOT an
+   operation of the interleaved machine of C10_hit_is_exactly_one_completed_write (in StoreMap the stale and the fresh
+   anchor share the tail slots during the update, which the ownership invariant of that proof does not describe) *)
+Theorem C10_header_update_keeps_the_body_partial : forall cap sl oldprefix body newp,
+  concat sl = oldprefix ++ body ->
+  concat (update_chain cap sl (lenN oldprefix) newp) = newp ++ body.
+Proof. exact update_chain_spec. Qed.
+Print Assumptions C10_header_update_keeps_the_body_partial.
+
 (* ---- the hypotheses are satisfiable / the conclusions are not vacuous ---- *)
 Definition ex_key : bytes := [1;2;3;4;5;6;7;8;9;10;11;12;13;14;15;16].
 Definition ex_key2 : bytes := [1;2;3;4;5;6;7;8;9;10;11;12;13;14;15;17].
@@ -142,4 +156,20 @@ Example ex_sequential_driver :
           SGet 0 ex_key 60 30 2 25 []; SPurge 0; SGet 0 ex_key 60 30 2 25 []])
   = [RMiss 20 (adler32 (mk_body 1 20)); RHit 30 20 (adler32 (mk_body 1 20)); RMiss 25 (adler32 (mk_body 2 25));
      RHit 30 25 (adler32 (mk_body 2 25)); RPurged; RMiss 25 (adler32 (mk_body 2 25))].
+Proof. vm_compute. reflexivity. Qed.
+
+(* a header update on 5-byte slots: prefix "pppppp" (6 bytes: the splicing point is the second slot) replaced by
+   "QQQ": the fresh chain is [QQQ+4 bytes of slot 2 = 5 + 2], followed by the untouched third slot; a partly filled
+   slot sits in the middle, and reading offset 7.. through the chain still gives the body *)
+Example ex_update_chain :
+  update_chain 5 [[112;112;112;112;112]; [112;1;2;3;4]; [5;6;7]] 6 [81;81;81]
+    = [[81;81;81;1;2]; [3;4]; [5;6;7]] /\
+  chain_read (update_chain 5 [[112;112;112;112;112]; [112;1;2;3;4]; [5;6;7]] 6 [81;81;81]) 6 10 = [4] /\
+  chain_read (update_chain 5 [[112;112;112;112;112]; [112;1;2;3;4]; [5;6;7]] 6 [81;81;81]) 7 10 = [5;6;7].
+Proof. vm_compute. repeat split. Qed.
+
+Example ex_sequential_driver_with_update :
+  snd (seq_run KRock (seq_init KRock 8 4)
+         [SGet 0 ex_key 60 30 1 20 []; SUpdate 0 ex_key 60 30 41; SGet 0 ex_key 60 41 1 20 []])
+  = [RMiss 20 (adler32 (mk_body 1 20)); RReval 20 (adler32 (mk_body 1 20)); RHit 41 20 (adler32 (mk_body 1 20))].
 Proof. vm_compute. reflexivity. Qed.
